@@ -643,6 +643,10 @@ pub fn sched_specs(prop: &str, tier: &str) -> Vec<HistSpec> {
                 vec![Sym::V, Sym::A, Sym::F, Sym::W, Sym::T, Sym::Alow, Sym::F],
                 vec![Sym::A, Sym::A, Sym::Pfirst, Sym::F, Sym::W, Sym::A],
                 vec![Sym::A, Sym::U, Sym::F, Sym::W, Sym::C, Sym::F],
+                // flushes without callback interleaved with acknowledged ones
+                vec![Sym::A, Sym::Fn, Sym::A, Sym::F, Sym::W],
+                vec![Sym::A, Sym::F, Sym::A, Sym::Fn, Sym::F, Sym::W, Sym::W],
+                vec![Sym::V, Sym::Fn, Sym::F, Sym::W],
             ];
             for sh in shapes {
                 let mut s = base_spec(prop, schedx::from_syms(&sh), Cfg::records(3));
@@ -693,6 +697,7 @@ pub fn sched_specs(prop: &str, tier: &str) -> Vec<HistSpec> {
                     vec![Sym::A, Sym::F, Sym::W, Sym::F],
                     vec![Sym::A, Sym::A, Sym::F, Sym::F],
                     vec![Sym::A, Sym::F, Sym::A, Sym::F],
+                    vec![Sym::A, Sym::Fn, Sym::F],
                 ];
                 for sh in shapes {
                     for c in [Cfg::records(2), Cfg::records(3)] {
